@@ -40,8 +40,88 @@ def bounds(tier):
 
 def work(tier, seed):
     b = bounds(tier)
-    return [{"blocks": [list(x) for x in bl], "grid": g}
-            for bl in ot.order_types(b["max_pos"], b["max_neg"], 1, 1) for g in b["grids"]]
+    items = [{"blocks": [list(x) for x in bl], "grid": g}
+             for bl in ot.order_types(b["max_pos"], b["max_neg"], 1, 1) for g in b["grids"]]
+    items.append({"kind": "nb_points_kinds"})
+    for base in (2**53 - 4, 2**53, 2**60, -(2**53) - 6):
+        items.append({"kind": "bigint", "base": base})
+    return items
+
+
+def _run_nb_points_kinds(ctx):
+    """nb_points handed over as Python int and as NumPy integer scalars of every width, up to the top of the type."""
+    from score_analysis import Scores
+    from score_analysis.roc_curve import roc
+
+    pos, neg = [0.5, 1.25, 2.0, 3.5, 2.0], [-3.0, 0.75, 1.25, 2.5]
+    menu = []
+    for dt in (np.uint8, np.int8, np.uint16, np.int16, np.int32, np.int64, np.uint32, np.uint64):
+        top = int(np.iinfo(dt).max)
+        for v in (2, 5, 100, 127, 128, 255, 256, 32767, 65535):
+            if v <= top:
+                menu.append((np.dtype(dt).name, dt(v), v))
+    menu += [("int", v, v) for v in (2, 5, 255, 65535)]
+    for cfg in (ot.CFGS[0], ot.CFGS[2]):
+        s = Scores(pos, neg, nb_easy_pos=1, score_class=cfg[0], equal_class=cfg[1])
+        for ax in ("fpr", "tnr"):
+            for tname, arg, v in menu:
+                case = {"kind": "nb_points_kinds", "nb_points": v, "passed_as": tname, "cfg": list(cfg), "x_axis": ax}
+                ctx.state()
+                ctx.nontrivial()
+                ok, r = guarded(ctx, "roc", case, lambda: roc(s, nb_points=arg, x_axis=ax))
+                ctx.tick()
+                if not ok:
+                    continue
+                th = np.asarray(r.thresholds, dtype=float)
+                if len(th) != v:
+                    ctx.fail("default-curve-length", case, observed=len(th), expected=v)
+                    continue
+                if not (np.array_equal(np.asarray(r.fnr, dtype=float), np.asarray(s.fnr(th), dtype=float))
+                        and np.array_equal(np.asarray(r.fpr, dtype=float), np.asarray(s.fpr(th), dtype=float))):
+                    ctx.fail("rates-are-the-objects-rates-at-thresholds", case, observed="differs", expected="equal")
+                if not _isnondecreasing(getattr(r, ax)):
+                    ctx.fail("x-axis-non-decreasing", case, observed="decreasing somewhere", expected="non-decreasing")
+    ctx.sample({"kind": "nb_points_kinds", "menu": len(menu)})
+    return None
+
+
+def _run_bigint(item, ctx):
+    """Integer scores and integer thresholds beyond 2^53: supplied thresholds appear on the curve as given and the
+    rates are those of exact integer comparisons."""
+    from mc import refs
+    from score_analysis import Scores
+    from score_analysis.roc_curve import roc
+
+    base = item["base"]
+    pos = [base + 1, base + 4, base + 5, base + 9, base + 5]
+    neg = [base, base + 2, base + 5, base + 7]
+    for cfg in ot.CFGS:
+        s = Scores(np.array(pos, dtype=np.int64), np.array(neg, dtype=np.int64), score_class=cfg[0], equal_class=cfg[1])
+        for thr_kind, thr in (("list-of-int", [base + 5, base + 3, base + 8]), ("int64-array", np.array([base + 6, base + 1, base + 5], dtype=np.int64)),
+                              ("one-int", [base + 3])):
+            for ax in ("fpr", "fnr"):
+                case = {"kind": "bigint", "base": base, "pos_offsets": [p - base for p in pos], "neg_offsets": [n - base for n in neg],
+                        "thresholds": thr_kind, "cfg": list(cfg), "x_axis": ax}
+                ctx.state()
+                ctx.nontrivial()
+                ok, r = guarded(ctx, "roc", case, lambda: roc(s, thresholds=thr, x_axis=ax))
+                ctx.tick()
+                if not ok:
+                    continue
+                got_t = [int(t) for t in np.asarray(r.thresholds).tolist()] if np.asarray(r.thresholds).dtype.kind in "iu" else None
+                want_t = sorted(int(t) for t in (thr.tolist() if isinstance(thr, np.ndarray) else thr))
+                if got_t is None or sorted(got_t) != want_t:
+                    ctx.fail("supplied-thresholds-present", case, observed=[str(t) for t in np.asarray(r.thresholds).tolist()],
+                             expected=[str(t) for t in want_t])
+                    continue
+                for t, fn_, fp_ in zip(got_t, np.asarray(r.fnr, dtype=float).tolist(), np.asarray(r.fpr, dtype=float).tolist()):
+                    want = refs.ref_rates(refs.ref_cm(pos, neg, t, cfg[0], cfg[1]))
+                    if not (refs.same_float(fn_, want["fnr"]) and refs.same_float(fp_, want["fpr"])):
+                        ctx.fail("rates-are-the-objects-rates-at-thresholds", dict(case, threshold_offset=t - base), observed=[fn_, fp_],
+                                 expected=[float(want["fnr"]), float(want["fpr"])])
+                        break
+    ctx.sample({"kind": "bigint", "base": base})
+    return None
 
 
 def _isnondecreasing(v):
@@ -54,6 +134,10 @@ def run(item, ctx, tier, seed):
     from score_analysis.roc_curve import roc
 
     b = bounds(tier)
+    if item.get("kind") == "nb_points_kinds":
+        return _run_nb_points_kinds(ctx)
+    if item.get("kind") == "bigint":
+        return _run_bigint(item, ctx)
     blocks = [tuple(x) for x in item["blocks"]]
     if item["grid"] in ot.MIXED_KINDS:  # classes stored in different dtypes, the narrower unable to hold the other's values
         pos, neg, vals, parr, narr = ot.concretise_mixed(blocks, item["grid"])
